@@ -93,6 +93,8 @@ def check(data, want_names=None, bitmap_glyphs=None):
             for g in strike.glyphs:
                 if g not in font["hmtx"].metrics:
                     bad.append(("C07.sbix", f"strike {ppem} has unknown glyph {g}"))
+    # ---- layout tables: coverage tables list glyphs in increasing glyph-ID order (sanitisers drop the table otherwise) --------
+    bad += _coverage_sorted(data)
     if bitmap_glyphs is not None:
         # exactly one bitmap for every glyph the caller knows to be a colour glyph
         for gid in sorted(bitmap_glyphs):
@@ -283,3 +285,42 @@ def _cblc(font, raw, order):
         if seen and (bst.startGlyphIndex != min(gid_of[g] for g in seen) or bst.endGlyphIndex != max(gid_of[g] for g in seen)):
             bad.append(("C07.cblc-range", f"strike {si}: bitmapSizeTable range {bst.startGlyphIndex}..{bst.endGlyphIndex} != indexed glyphs"))
     return bad
+
+
+def _coverage_sorted(data):
+    """reads the file once more with a probe on Coverage.postRead: format 1 glyph ids strictly increasing, format 2 ranges
+    sorted with consecutive start coverage indices"""
+    from fontTools.ttLib.tables import otTables as ot
+
+    found = []
+    orig = ot.Coverage.postRead
+
+    def postRead(self, rawTable, font):
+        try:
+            if self.Format == 1:
+                ids = [font.getGlyphID(g) for g in rawTable["GlyphArray"]]
+                if any(b <= a for a, b in zip(ids, ids[1:])):
+                    found.append(f"format 1 coverage lists glyph ids {ids}")
+            elif self.Format == 2:
+                prev_end, nxt = -1, 0
+                for r in rawTable["RangeRecord"]:
+                    s_, e_ = font.getGlyphID(r.Start), font.getGlyphID(r.End)
+                    if s_ <= prev_end or e_ < s_ or r.StartCoverageIndex != nxt:
+                        found.append(f"format 2 coverage range {s_}..{e_} with start index {r.StartCoverageIndex} after end {prev_end}")
+                    nxt += e_ - s_ + 1
+                    prev_end = e_
+        except Exception:
+            pass
+        return orig(self, rawTable, font)
+
+    ot.Coverage.postRead = postRead
+    try:
+        f = TTFont(io.BytesIO(data), lazy=False)
+        for tag in ("GSUB", "GPOS", "GDEF"):
+            if tag in f:
+                f[tag].ensureDecompiled() if hasattr(f[tag], "ensureDecompiled") else None
+    except Exception as e:
+        return [("C07.loads", f"layout tables: {type(e).__name__}: {e}")]
+    finally:
+        ot.Coverage.postRead = orig
+    return [("C07.coverage-sorted", found[0])] if found else []
